@@ -320,7 +320,7 @@ func accumulatedFlag(v ssa.Value) (bool, bool) {
 func c05rowPlacement(c *Ctx, r *Result, rule string) {
 	fn := c.FnOpt("hdf5.expandEdgeChunk")
 	if fn == nil {
-		r.Shortfall(c, rule, rule+": expandEdgeChunk not found")
+		r.ViolMissing(c, c.FnOpt("hdf5.DatasetWriter.writeChunkedData"), rule, "hdf5#clipped-chunks-expanded-to-nominal-shape", "", "there is no expandEdgeChunk: the clipped data of a boundary chunk is not placed into a buffer of the nominal chunk shape")
 		return
 	}
 	var nominal *ssa.Parameter
